@@ -225,6 +225,8 @@ def parser_streams(check):
         for t in itertools.product(AC_ALPHA, repeat=ln):
             k += 1
             ops.append(G.ac_op(k % 4, (k // 4) % 2 == 1, bytes(t), AC_TABLES[(k // 8) % 2]))
+            if k % 16 == 5:        # the same bytes read through a pipe (not seekable)
+                ops.append("acpipe" + ops[-1][2:])
     sts.append(Stream("aconf-exhaustive-len0-%d" % n_ac, ops, note="all %d strings over %r" % (len(ops), AC_ALPHA)))
     nsample = 30000 if tier == "quick" else 400000
     ops = []
@@ -239,8 +241,11 @@ def parser_streams(check):
     sts.append(Stream("ini-sampled-short", ops))
     # --- hand-made families
     sts.append(Stream("ini-self-referential", [G.ini_op(0x3d, d, INI_ENV) for d in self_ref_docs()]))
-    sts.append(Stream("ini-include-files", [G.inif_op(d[2] if len(d) > 2 else 0x3d, d[0], d[1])
-                                            for d in include_docs(rng, 600 if tier == "quick" else 15000)]))
+    inc = [G.inif_op(d[2] if len(d) > 2 else 0x3d, d[0], d[1]) for d in include_docs(rng, 600 if tier == "quick" else 15000)]
+    # (a MAIN file that is a pipe is not used: qfile_load sizes its read by fstat and delivers an empty
+    #  text for a FIFO / /dev/fd/N - an observation about qfile.c outside the parsers' properties, see
+    #  DESIGN.md 12.3; qaconf reads pipes correctly and is exercised through `acpipe`)
+    sts.append(Stream("ini-include-files", inc))
     # unusual separator characters: qconfig hands sepchar to _q_makeword unchanged ('\0': the terminator is
     # the stop byte; '#', '[': also the comment / section marks; blank: eaten by the trimming)
     ops = []
@@ -307,6 +312,13 @@ def parser_streams(check):
         if rng.random() < 0.8:
             doc = mutate(rng, doc, AC_ALPHA)
         ops.append(G.ac_op(flags, rng.random() < 0.2, doc, table))
+        if rng.random() < 0.2:
+            ops[-1] = "acpipe" + ops[-1][2:]
+    # a leading UTF-8 byte order mark (and prefixes of it) in front of everything, file and pipe
+    for pre in (b"\xef\xbb\xbf", b"\xef\xbb", b"\xef", b"\xef\xbb\xbf\xef\xbb\xbf"):
+        for body in (b"", b"a", b"a 1\n1 on\n", b"<a>\n</a>\n", b"\n", b"#c\na\n"):
+            op = G.ac_op(0, False, pre + body, AC_TABLES[0])
+            ops += [op, "acpipe" + op[2:]]
     sts.append(Stream("aconf-grammar-mutated", ops))
     ops = []
     for _ in range(n):
@@ -324,7 +336,7 @@ def parser_judge(op, line):
     """C17's oracle for the two parsers: the call returned (no watchdog timeout, no sanitizer abort —
     a missing line is reported by vlib as a crash) with a result or an error"""
     w = op.split(None, 1)[0]
-    if w not in ("ini", "inif", "ac", "acp", "fread"):
+    if w not in ("ini", "inif", "inifp", "ac", "acp", "acpipe", "fread"):
         return None
     if line.startswith("timeout"):
         return "parser did not return within the watchdog time"
@@ -338,8 +350,10 @@ def parser_judge(op, line):
         if line != want:
             return "qfile_read returned %s, the stream holds %s" % (line[:60], want[:60])
         return None
-    if w == "acp":
+    if w in ("acp", "acpipe"):
         w = "ac"
+    if w == "inifp":
+        w = "inif"
     if w in ("ini", "inif") and not (line.startswith("ok ") or line == "null"):
         return "neither a table nor NULL: " + line[:80]
     if w == "ac" and G.parse_ac_result(line) is None:
@@ -349,7 +363,7 @@ def parser_judge(op, line):
 
 def parser_classify(op, detail):
     w = op.split()
-    if w and w[0] == "inif":
+    if w and w[0] in ("inif", "inifp"):
         return "qconfig_parse_file:" + ("timeout" if "watchdog" in detail or "imeout" in detail.lower() else
                                         "crash" if "died" in detail else "result")
     if w and w[0] == "ini":
@@ -357,7 +371,7 @@ def parser_classify(op, detail):
             # a document without any `${` cannot hang in the expansion
             return "qconfig._parsestr:self-referential-table-value" if "247b" in w[2] else "qconfig:timeout"
         return "qconfig:" + ("crash" if "died" in detail else "result")
-    if w and w[0] in ("ac", "acp"):
+    if w and w[0] in ("ac", "acp", "acpipe"):
         return "qaconf:" + ("timeout" if "watchdog" in detail or "imeout" in detail.lower() else "crash" if "died" in detail else "result")
     if w and w[0] == "fread":
         return "qfile_read:" + ("crash" if "died" in detail else "result")
